@@ -26,6 +26,16 @@ func Keys[M ~map[K]V, K cmp.Ordered, V any](m M) []K {
 		ks = append(ks, k)
 	}
 	sort.Slice(ks, func(i, j int) bool { return ks[i] < ks[j] })
+	if s := active.Load(); s != nil && s.cfg.MapSeed != 0 && len(ks) > 1 {
+		// a repeatable stand-in for Go's randomised iteration order: code whose result depends
+		// on the order of a map range must be exposed, not masked by sorting
+		s.mapRanges++
+		r := NewRand(s.cfg.MapSeed ^ (s.mapRanges * 0x9e3779b97f4a7c15))
+		for i := len(ks) - 1; i > 0; i-- {
+			j := r.Intn(i + 1)
+			ks[i], ks[j] = ks[j], ks[i]
+		}
+	}
 	return ks
 }
 
